@@ -460,12 +460,105 @@ func (fr *fwRun) run(p fwProfile) {
 				fr.doStep(&fwStep{Kind: "sleep", SleepMs: []int{5, 70, 70}[r.Intn(3)]})
 			}
 			fr.doStep(&fwStep{Kind: "reap"})
+		case k < 97:
+			fr.motif(p, nonces)
 		default:
 			if p.prop == "C02" && r.Intn(3) == 0 {
 				fr.doStep(&fwStep{Kind: "sleep", SleepMs: 620}) // cross the suppression interval
 			}
 		}
 	}
+}
+
+// motif plays a short directed sequence that random steps produce only rarely: the life of one
+// PIT entry across satisfaction, re-use before the reaper runs, expiry and a late looped copy.
+// The model decides every step exactly as for random steps.
+func (fr *fwRun) motif(p fwProfile, nonces []uint32) {
+	r := fr.r
+	n := fr.pickName(false)
+	if len(n) == 0 {
+		n = fr.u.PickDepth(r, 1)
+	}
+	f1, f2 := fr.pickFace(), fr.pickFace()
+	for tries := 0; f2 == f1 && tries < 8; tries++ {
+		f2 = fr.pickFace()
+	}
+	x1, x2 := nonces[r.Intn(len(nonces))], r.Uint32()
+	short := []int{20, 40}[r.Intn(2)]
+	mk := func(face uint64, nonce uint32, mbf bool, life *int) *fwStep {
+		if life == nil && p.prop == "C08" {
+			life = &short // the C08 quiescence check relies on every lifetime being short
+		}
+		v := nonce
+		return &fwStep{Kind: "interest", Face: face, name: n.Clone(), Name: n.String(), MBF: mbf, Nonce: &v, LifeMs: life}
+	}
+	upstream := func() uint64 { // a face the Interest was sent to, else any face
+		for _, e := range fr.m.entries {
+			if refNameCompare(e.name, n) == 0 {
+				var fs []int
+				for f := range e.out {
+					fs = append(fs, int(f))
+				}
+				if len(fs) > 0 {
+					sort.Ints(fs)
+					return uint64(fs[r.Intn(len(fs))])
+				}
+			}
+		}
+		return fr.pickFace()
+	}
+	data := func(fresh *int) {
+		st := &fwStep{Kind: "data", Face: upstream(), name: n.Clone(), Name: n.String(), TokMode: "none", FreshMs: fresh}
+		fr.doStep(st)
+	}
+	switch r.Intn(3) {
+	case 0: // satisfied entry re-used before the reaper runs, then expiry, then a looped copy
+		fr.doStep(mk(f1, x1, false, nil))
+		if fr.stop {
+			return
+		}
+		data(nil)
+		if fr.stop {
+			return
+		}
+		fr.doStep(mk(f1, x2, true, &short))
+		if fr.stop {
+			return
+		}
+		fr.doStep(&fwStep{Kind: "sleep", SleepMs: 70})
+		fr.doStep(&fwStep{Kind: "reap"})
+		if fr.stop {
+			return
+		}
+		fr.doStep(mk(f2, x2, true, nil))
+	case 1: // expiry, then the same nonce from another face
+		fr.doStep(mk(f1, x2, false, &short))
+		if fr.stop {
+			return
+		}
+		fr.doStep(&fwStep{Kind: "sleep", SleepMs: 70})
+		fr.doStep(&fwStep{Kind: "reap"})
+		if fr.stop {
+			return
+		}
+		fr.doStep(mk(f2, x2, false, nil))
+	default: // answered from the cache, then the same Data arrives again
+		fresh := 3600000
+		fr.doStep(mk(f1, x1, false, nil))
+		if fr.stop {
+			return
+		}
+		data(&fresh)
+		if fr.stop {
+			return
+		}
+		fr.doStep(mk(f2, x2, false, nil))
+		if fr.stop {
+			return
+		}
+		data(&fresh)
+	}
+	fr.c.Count("motifs_played", 1)
 }
 
 func hexBytes(s string) []byte {
